@@ -89,7 +89,7 @@ def hyp_part(n_examples, shard):
     @st.composite
     def case(draw):
         ver = draw(gen.version_key())
-        kind = draw(st.sampled_from(("object", "score-sweep", "score-sweep", "special-score", "no-slash", "bad-score",
+        kind = draw(st.sampled_from(("object", "score-sweep", "score-sweep", "near-score", "special-score", "no-slash", "bad-score",
                                      "bad-vector", "both-bad", "other-score-slot")))
         v = draw(gen.valid(ver))
         if kind == "object":
@@ -97,6 +97,14 @@ def hyp_part(n_examples, shard):
         if kind == "score-sweep":
             k = draw(st.integers(0, 100))
             return ver, kind, draw(st.sampled_from(SPELLINGS)) % (k / 10.0) + "/" + v
+        if kind == "near-score":
+            # a number close to, but different from, the base score (or a long spelling of exactly the base score)
+            base = scorecheck.as_floats(scorecheck.expected_scores(ver, v))[0]
+            delta = draw(st.sampled_from((0.0, 0.04, -0.04, 0.05, -0.05, 0.001, -0.001, 1e-5, -1e-5, 1e-7, -1e-7, 1e-9, -1e-9,
+                                          1e-12, -1e-12, 1.0, -1.0, 10.0)))
+            fmt = draw(st.sampled_from(("%r", "%r", "%.17g", "%.12f", "%.2f", "%.1f0", "%.4e")))
+            x = base + delta
+            return ver, kind, (fmt % x) + "/" + v
         if kind == "special-score":
             sc = draw(st.sampled_from(("nan", "inf", "-inf", "-0.0", "1e1", "10", "0", "1_0", "٣.٥", "0x10", "1e400", ".5", "5.", "")))
             return ver, kind, sc + "/" + v
@@ -145,8 +153,14 @@ def sweep_part(shard, n_vectors, seed):
         for k in range(101):
             text = "%.1f/%s" % (k / 10.0, v)
             part.check("rh_parse", check_rh_parse, {"ver": ver, "text": text})
-        part.evaluations += 101
-        part.nontrivial_count += 100
+        # near misses of the true base score: neighbouring floats and tiny offsets must be rejected
+        import math
+        base = scorecheck.as_floats(scorecheck.expected_scores(ver, v))[0]
+        near = [math.nextafter(base, 11.0), math.nextafter(base, -1.0), base + 1e-7, base - 1e-7, base + 1e-10, base - 1e-13]
+        for x in near:
+            part.check("rh_parse", check_rh_parse, {"ver": ver, "text": "%r/%s" % (x, v)})
+        part.evaluations += 101 + len(near)
+        part.nontrivial_count += 100 + len(near)
         part.classes["sweep-101"] += 1
     return part
 
@@ -157,11 +171,11 @@ def run(tier, t0):
         part.merge(p)
     rule = ("(i) objects from accepted vectors: rh_vector() format and round trip; (ii) <score>/<vector> with all 101 scores "
             "k/10 in several numeric spellings, nan/inf/-0.0/integers/non-ASCII digits, the temporal/environmental score in "
-            "place of the base score; (iii) strings without '/', non-numeric score parts, numeric score + mutated vector, both "
+            "place of the base score, numbers within 1e-5..1e-13 of the base score and its neighbouring floats; (iii) strings without '/', non-numeric score parts, numeric score + mutated vector, both "
             "faulty. non-trivial = case that must be rejected; distinct by hash (sweep cases by construction)")
     return runner.finish(part, tier, t0, rule,
                          ["'parses as a number' = Python float() succeeds; equality is exact float equality with the oracle base score",
                           "when both the score part and the vector part are faulty either error class is accepted"],
-                         required=("object", "score-sweep", "special-score", "no-slash", "bad-score", "bad-vector", "both-bad",
+                         required=("object", "score-sweep", "near-score", "special-score", "no-slash", "bad-score", "bad-vector", "both-bad",
                                    "other-score-slot", "sweep-101", "outcome:ok", "outcome:rh-mismatch", "outcome:rh-malformed",
                                    "outcome:malformed", "outcome:mandatory"))
